@@ -56,6 +56,12 @@ pub fn one_world(env_dir: &std::path::Path, b: &mut Builder, w: &World, pol: &Po
 }
 
 fn run_c01_c02(ctx: &mut Ctx, rep: &mut Report, judge_surplus: bool) {
+    // A quarter of the shards run multi-run histories on one cache (fetch faults and incomplete
+    // updates against a stored version) judged by the history model.
+    if ctx.shard % 4 == 3 {
+        super::hist::run_hist(ctx, rep, if judge_surplus { "C01" } else { "C02" }, super::hist::Emphasis::Mixed);
+        return
+    }
     let mut rng = ctx.rng("worlds");
     let mut b = match Builder::new() { Ok(b) => b, Err(e) => { rep.inconclusive(format!("key pool: {e}")); return } };
     let n = ctx.tier.pick(40u64, 800);
